@@ -183,11 +183,12 @@ def script(rng, tx0, rx0, nq, word):
                 frm = r.outstanding()
             f = 0 if frm is None else frm
             if ch == "a":
-                r.do(f"F=A:0:0:{(f + 1) % 8}")
+                r.do(f"F=A:{rng.choice([0, 0, 1])}:{rng.choice([0, 0, 1])}:{(f + 1) % 8}")
             elif ch == "s":
                 r.do(f"F=A:0:0:{f}")
             elif ch == "n":
-                r.do(f"F=N:0:0:{f}")
+                # (the reserved bit and the not-ready flag of a NAK / ACK change nothing in what the frame acknowledges or rejects)
+                r.do(f"F=N:{rng.choice([0, 0, 1])}:{rng.choice([0, 0, 1])}:{f}")
             elif ch == "o":
                 r.do("F=" + other(f))
             elif ch == "t":
@@ -254,6 +255,7 @@ def oracle(r, consts):
     told = 0
     started, finished = set(), set()
     was_failed = False
+    last_out = "-"
     for ev, entries, st in r.events:
         now = int(st.split("now=")[1].split()[0]) / 1e6
         is_failed = "failed=1" in st
@@ -284,6 +286,8 @@ def oracle(r, consts):
             if any(x[0] in "AND" and int(x.split(":")[3]) == (wfr + 1) % 8 for x in fs_) or is_failed or \
                     any(e[0] == "R" and not (is_rstack and e == "R11") for e in entries):
                 wire_out = None
+        prev_out_for_nak = outstanding if (outstanding is not None and last_out.isdigit() and int(last_out) == sends[outstanding]["frm"]) else None
+        last_out = out_now
         if outstanding is not None:
             fr = sends[outstanding]["frm"]
             cov_here = any(x[0] in "AND" and int(x.split(":")[3]) == (fr + 1) % 8 for x in fs_)
@@ -294,6 +298,15 @@ def oracle(r, consts):
             gone = out_now == "-" or (int(out_now) != fr) or done_here or told_here
             if gone:
                 prev_outstanding, outstanding = outstanding, None
+        if kind == "F" and ev[2] == "N" and prev_out_for_nak is not None and not is_failed:
+            pfr = sends[prev_out_for_nak]["frm"]
+            if int(ev.split(":")[3]) == pfr and len(sends[prev_out_for_nak]["writes"]) < maxatt:
+                rew = [e for e in entries if e[0] == "W" and decode_wire(ashlib.unhx(e[1:]))[0] == "D"
+                       and hx(decode_wire(ashlib.unhx(e[1:]))[4]) == prev_out_for_nak]
+                cancelled_here = any(e[0] == "D" and e.endswith("cancelled") for e in entries)
+                if not rew and not cancelled_here and results.get(prev_out_for_nak) is None:
+                    return (f"NAK for the outstanding frame {pfr} ({prev_out_for_nak}) on event {ev} was not answered by its retransmission at once "
+                            f"({len(sends[prev_out_for_nak]['writes'])} of {maxatt} attempts used)")
         for e in sorted(entries, key=lambda e: e[0] != "D"):
             if e[0] == "W":
                 d = decode_wire(ashlib.unhx(e[1:]))
